@@ -54,61 +54,63 @@ Definition parse_statement (col : str) (ts : list tok) : option (cond * list tok
   | _ => None
   end.
 
-Fixpoint parse_disj (fuel : nat) (ts : list tok) : option (cond * list tok) :=
+Definition mk_or (cs : list cond) : cond := match cs with [c] => c | _ => COr cs end.
+Definition mk_and (cs : list cond) : cond := match cs with [c] => c | _ => CAnd cs end.
+
+(* pdl: conjunction (OR conjunction)* ; pcl: item (AND item)* ; pitem: not D | ( D ) | statement.
+   The while-loops of the parser are unrolled by recursion on the fuel. *)
+Fixpoint pdl (fuel : nat) (ts : list tok) : option (list cond * list tok) :=
   match fuel with
   | O => None
   | S f =>
-      (* one conjunction, then more while OR follows *)
-      let fix disj_loop (n : nat) (acc : list cond) (ts : list tok) : option (list cond * list tok) :=
-          match n with
-          | O => None
-          | S n' =>
-              match parse_conj f ts with
-              | None => None
-              | Some (c, KOr :: rest) => disj_loop n' (acc ++ [c]) rest
-              | Some (c, rest) => Some (acc ++ [c], rest)
-              end
-          end in
-      match disj_loop (S (length ts)) [] ts with
-      | Some ([c], rest) => Some (c, rest)
-      | Some (cs, rest) => Some (COr cs, rest)
+      match pcl f ts with
+      | Some (cs, KOr :: rest) =>
+          match pdl f rest with
+          | Some (ds, rest') => Some (mk_and cs :: ds, rest')
+          | None => None
+          end
+      | Some (cs, rest) => Some ([mk_and cs], rest)
       | None => None
       end
   end
-with parse_conj (fuel : nat) (ts : list tok) : option (cond * list tok) :=
+with pcl (fuel : nat) (ts : list tok) : option (list cond * list tok) :=
   match fuel with
   | O => None
   | S f =>
-      let fix conj_loop (n : nat) (acc : list cond) (ts : list tok) : option (list cond * list tok) :=
-          match n with
-          | O => None
-          | S n' =>
-              let item :=
-                match ts with
-                | KNot :: rest =>
-                    match parse_disj f rest with
-                    | Some (c, rest') => Some (CNot c, rest')
-                    | None => None
-                    end
-                | KLp :: rest =>
-                    match parse_disj f rest with
-                    | Some (c, KRp :: rest') => Some (c, rest')
-                    | _ => None
-                    end
-                | KId col :: rest => parse_statement col rest
-                | _ => None
-                end in
-              match item with
-              | None => None
-              | Some (c, KAnd :: rest) => conj_loop n' (acc ++ [c]) rest
-              | Some (c, rest) => Some (acc ++ [c], rest)
-              end
-          end in
-      match conj_loop (S (length ts)) [] ts with
-      | Some ([c], rest) => Some (c, rest)
-      | Some (cs, rest) => Some (CAnd cs, rest)
+      match pitem f ts with
+      | Some (c, KAnd :: rest) =>
+          match pcl f rest with
+          | Some (cs, rest') => Some (c :: cs, rest')
+          | None => None
+          end
+      | Some (c, rest) => Some ([c], rest)
       | None => None
       end
+  end
+with pitem (fuel : nat) (ts : list tok) : option (cond * list tok) :=
+  match fuel with
+  | O => None
+  | S f =>
+      match ts with
+      | KNot :: rest =>
+          match pdl f rest with
+          | Some (ds, rest') => Some (CNot (mk_or ds), rest')
+          | None => None
+          end
+      | KLp :: rest =>
+          match pdl f rest with
+          | Some (ds, KRp :: rest') => Some (mk_or ds, rest')
+          | _ => None
+          end
+      | KId col :: rest => parse_statement col rest
+      | _ => None
+      end
+  end.
+
+Definition parse_disj (fuel : nat) (ts : list tok) : option (cond * list tok) :=
+  match pdl fuel ts with
+  | Some (ds, rest) => Some (mk_or ds, rest)
+  | None => None
   end.
 
 (* _parse_select_where: repeated where clauses mean conjunction *)
@@ -118,7 +120,7 @@ Fixpoint parse_where (n : nat) (ts : list tok) (acc : list cond) : option (optio
   | S n' =>
       match ts with
       | KWhere :: rest =>
-          match parse_disj (S (length rest)) rest with
+          match parse_disj (40 * S (length rest)) rest with
           | Some (c, rest') => parse_where n' rest' (acc ++ [c])
           | None => None
           end
